@@ -215,10 +215,10 @@ def mpoly_pool3(tier):
     return [[rect_corners(*r)] for r in rects(Tq, Fqq)] + list(right_triangles(Tq, Fqq)) + [first_holed(*lattice(tier))]
 
 
-FAMILIES = ["flat", "line", "mpoint", "ring3", "poly", "mline1", "mline2", "mline3", "mpoly1", "mpoly2", "mpoly3", "regroup"]
+FAMILIES = ["flat", "line", "mpoint", "ring3", "poly", "mline1", "mline2", "mline3", "mpoly1", "mpoly2", "mpoly3", "regroup", "odd"]
 # measured relative cost per geometry (ms on the reference machine); only used to balance the blocks
 WEIGHT = {"flat": 0.8, "line": 0.55, "mpoint": 1.7, "ring3": 0.8, "poly": 0.9, "mline1": 0.85, "mline2": 1.15, "mline3": 1.4,
-          "mpoly1": 1.2, "mpoly2": 1.7, "mpoly3": 2.0, "regroup": 1.5}
+          "mpoly1": 1.2, "mpoly2": 1.7, "mpoly3": 2.0, "regroup": 1.5, "odd": 1.5}
 
 
 def family(fam, tier):
@@ -297,8 +297,52 @@ def family(fam, tier):
                     first, second = second, first
                 yield "MultiPolygon", first
                 yield "MultiPolygon", second
+    elif fam == "odd":
+        # off-lattice: coordinates that need all 53 bits of a double (conversion and bounds must hand them on untouched; features and
+        # anchor points are compared to 1e-9 here), a shell that does not start at its earliest vertex, and self-crossing rings
+        # (the conversion is still defined by the coordinates; centroid / point-on-surface are not judged for those)
+        Tp = [0.1234567891, 1.00000012345, 86399.999999999]
+        Fp = [0.123456789, 12345.678901234, 4999999.999999999]
+        P = [[t, f] for t in Tp for f in Fp]
+        for t in Tp:
+            yield "TimeStamp", t
+        for a, b in itertools.combinations_with_replacement(Tp, 2):
+            yield "TimeInterval", [a, b]
+        for p in P:
+            yield "Point", list(p)
+        for t0, t1 in itertools.combinations(Tp, 2):
+            for f0, f1 in itertools.combinations(Fp, 2):
+                yield "BoundingBox", [t0, f0, t1, f1]
+        for a, b, c in itertools.permutations(P[::2], 3):
+            yield "LineString", [a, b, c]
+            yield "MultiPoint", [a, b, c]
+            yield "Polygon", [[a, b, c]]
+            if a[0] < c[0]:
+                yield "MultiLineString", [[a, b, c], [a, c]]
+            yield "MultiPolygon", [[[a, b, c]], [[c, b, a]]]
+        shell = rect_corners(Tp[0], Tp[2], Fp[0], Fp[2])
+        hole = [[1.00000012345, 12345.678901234], [2.5, 12345.678901234], [2.5, 20000.5]]
+        for k in range(4):
+            yield "Polygon", [shell[k:] + shell[:k], hole]
+            yield "MultiPolygon", [[shell[k:] + shell[:k], hole], [[P[0], P[4], P[8]]]]
+        T, Fq = lattice("quick")
+        for t0, t1, f0, f1 in rects(T, Fq):
+            c = rect_corners(t0, t1, f0, f1)
+            bow = [c[0], c[2], c[1], c[3]]
+            yield "Polygon", [bow]
+            yield "MultiPolygon", [[bow], [c]]
     else:
         raise ValueError(fam)
+
+
+def self_crossing(gtype, coords):
+    """True for the 'bow tie' rings of the odd family (4 vertices, the two diagonals used as edges)."""
+    rings = coords if gtype == "Polygon" else [r for poly in coords for r in poly] if gtype == "MultiPolygon" else []
+    for r in rings:
+        if len(r) == 4 and r[0][0] == r[3][0] and r[1][0] == r[2][0] and r[0][1] == r[2][1] and r[1][1] == r[3][1] \
+                and r[0][0] != r[1][0] and r[0][1] != r[1][1]:
+            return True
+    return False
 
 
 _COUNTS = {}
@@ -444,6 +488,7 @@ def run_case(case):
         out.transitions = out.validated = 0
         return out
     coords = plain(g.coordinates)
+    exact = case.get("fam") != "odd"
     ext = gm.extent(gtype, coords)
     t0, f0, t1, f1 = ext
     exp_bounds = tuple(float(x) for x in ext)
@@ -505,7 +550,8 @@ def run_case(case):
         for k, v in want.items():
             if k in values:
                 got = values[k]
-                okv = isinstance(got, (int, float)) and not isinstance(got, bool) and got == v
+                okv = isinstance(got, (int, float)) and not isinstance(got, bool) and (
+                    got == v if exact else abs(got - float(v)) <= 1e-9 * max(1.0, abs(float(v))))
                 out.expect("features", okv, got, float(v), dict(cls, feature=k))
 
     # --- get_geometry_point: the nine anchor points and the default
@@ -519,12 +565,18 @@ def run_case(case):
             want, label = mp[pos], pos
         n_calls += 1
         n_val += 1
-        okp = r[0] == "ok" and is_pair(r[1]) and r[1][0] == want[0] and r[1][1] == want[1]
+        if exact:
+            okp = r[0] == "ok" and is_pair(r[1]) and r[1][0] == want[0] and r[1][1] == want[1]
+        else:
+            okp = r[0] == "ok" and is_pair(r[1]) and all(abs(r[1][i] - float(want[i])) <= 1e-9 * max(1.0, abs(float(want[i]))) for i in (0, 1))
         out.expect("positions", okp, r, (float(want[0]), float(want[1])), {"fn": "get_geometry_point", "position": label})
 
     # --- centroid and point on surface lie in the closed bounds
     tt, tf = tol(t0, t1), tol(f0, f1)
     for pos in SHAPELY_POSITIONS:
+        if not exact and self_crossing(gtype, coords):
+            out.vac("inside_bounds")
+            continue
         r = call(get_geometry_point, g, pos)
         n_calls += 1
         n_val += 1
@@ -540,6 +592,10 @@ def run_case(case):
         outcome = "returned" if r[0] == "ok" else ("%s:%s" % r)
         out.expect("invalid_position_rejected", r[0] == "reject", r, "ValueError",
                    {"fn": "get_geometry_point", "outcome": outcome}, {"name": name})
+
+    # --- none of the calls above may have touched the geometry it was given
+    now = plain(g.coordinates)
+    out.expect("input_unmodified", now == coords, now, coords, {"type": gtype})
 
     out.transitions = n_calls
     out.validated = n_val
